@@ -187,7 +187,7 @@ func init() {
 			}
 			return out
 		},
-		Exhaustive:  func(env *core.Env) bool { return true },
+		Exhaustive: func(env *core.Env) bool { return true },
 		Floor: func(env *core.Env, agg *core.Agg) string {
 			if agg.Counters["to_os_evaluations"] < 50000 || agg.Counters["from_os_evaluations"] < 50000 || agg.Counters["kernel_calls"] < 100 {
 				return fmt.Sprint(agg.Counters)
@@ -226,7 +226,9 @@ func c09run(env *core.Env, idx int) core.CaseResult {
 	if conv.Vol != "" {
 		convName += "+vol"
 	}
-	wit := func(s string) any { return map[string]any{"convention": conv.GOOS, "volume": conv.Vol, "chain": chain, "input": s} }
+	wit := func(s string) any {
+		return map[string]any{"convention": conv.GOOS, "volume": conv.Vol, "chain": chain, "input": s}
+	}
 	rootEl := rootElems(chain)
 	toOS := func(n string) (string, error) { return fsys.VerifToOSPath(conv.GOOS, conv.Sep, "ospath", n) }
 	fromOS := func(p string) (string, error) {
